@@ -938,4 +938,145 @@ example : rotAt (thin exT (fun e => e != 1)) 2 = [1, 2] ∧ rotAt exT 2 = [1, 2,
 
 end Renumbered
 
+section FaceInOutput
+open Lat AngOrder Function
+/-! ### a face none of whose edges is removed is a face of the renumbered output lattice -/
+
+theorem rankFrom_append (keep : Nat → Bool) (k a b : Nat) : rankFrom keep k (a + b) = rankFrom keep k a + rankFrom keep (k + a) b := by
+  unfold rankFrom
+  rw [← List.range'_append_1, List.filter_append, List.length_append]
+
+/-- the renumbering is strictly increasing on kept rows … -/
+theorem rank_lt (keep : Nat → Bool) {e1 e2 : Nat} (h : e1 < e2) (hk : keep e1 = true) : rank keep e1 < rank keep e2 := by
+  unfold rank
+  have : e2 = e1 + ((e2 - e1 - 1) + 1) := by omega
+  rw [this, rankFrom_append, Nat.add_comm (e2 - e1 - 1) 1, rankFrom_append]
+  have h1 : rankFrom keep (0 + e1) 1 = 1 := by
+    unfold rankFrom
+    simp [List.range'_one, hk]
+  omega
+
+/-- … hence injective on them -/
+theorem rank_inj (keep : Nat → Bool) {e1 e2 : Nat} (h1 : keep e1 = true) (h2 : keep e2 = true) (h : rank keep e1 = rank keep e2) : e1 = e2 := by
+  rcases Nat.lt_trichotomy e1 e2 with hlt | heq | hgt
+  · have := rank_lt keep hlt h1; omega
+  · exact heq
+  · have := rank_lt keep hgt h2; omega
+
+theorem succIn_map (f : Nat → Nat) (l : List Nat) (x : Nat) (hx : x ∈ l) (hinj : ∀ a ∈ l, ∀ b ∈ l, f a = f b → a = b) :
+    succIn (l.map f) (f x) = f (succIn l x) := by
+  unfold succIn
+  have hidx : (l.map f).idxOf (f x) = l.idxOf x := by
+    induction l with
+    | nil => cases hx
+    | cons a t ih =>
+      by_cases hax : a = x
+      · subst hax; simp
+      · have hxt : x ∈ t := by
+          rcases List.mem_cons.mp hx with h | h
+          · exact absurd h.symm hax
+          · exact h
+        have hfa : f a ≠ f x := fun h => hax (hinj a (by simp) x hx h)
+        rw [List.map_cons, List.idxOf_cons_ne _ hfa, List.idxOf_cons_ne _ hax,
+          ih hxt (fun a' ha' b' hb' => hinj a' (List.mem_cons_of_mem _ ha') b' (List.mem_cons_of_mem _ hb'))]
+  rw [hidx, List.length_map]
+  have hpos : 0 < l.length := List.length_pos_of_mem hx
+  have hlt : (l.idxOf x + 1) % l.length < l.length := Nat.mod_lt _ hpos
+  rw [List.getD_eq_getElem?_getD, List.getD_eq_getElem?_getD, List.getElem?_map, List.getElem?_eq_getElem hlt]
+  simp
+
+def renameDart (keep : Nat → Bool) (d : Dart) : Dart := (rank keep d.1, d.2)
+
+theorem thin_head (L : Lat) (keep : Nat → Bool) (d : Dart) (hk : keep d.1 = true) : (thin L keep).head (renameDart keep d) = L.head d := by
+  unfold Lat.head renameDart
+  simp only
+  rw [thin_endsOf L keep d.1 hk]
+
+/-- one step of the face walk in the renumbered lattice is the renamed step of the old walk, whenever the edge walked along
+    and the next edge are both kept -/
+theorem nextD_thin (L : Lat) (keep : Nat → Bool) (hL : L.noSelfLoop = true)
+    (hnz : ∀ v, ∀ e ∈ incident L v, outVec L v e ≠ (0, 0)) (d : Dart) (hd : d.1 < L.E) (hk : keep d.1 = true)
+    (hk' : keep (nextD L (rotAt L) d).1 = true) :
+    nextD (thin L keep) (rotAt (thin L keep)) (renameDart keep d) = renameDart keep (nextD L (rotAt L) d) := by
+  have hwf := rotAt_wf L hL
+  rw [nextD_eq_succIn, nextD_eq_succIn, thin_head L keep d hk, rotAt_thin L keep _ (hnz _)]
+  have hmem : d.1 ∈ rotAt L (L.head d) := head_mem hwf hd
+  have hmemf : d.1 ∈ (rotAt L (L.head d)).filter keep := List.mem_filter.mpr ⟨hmem, hk⟩
+  have hs : succIn ((rotAt L (L.head d)).filter keep) d.1 = succIn (rotAt L (L.head d)) d.1 :=
+    succIn_filter keep _ (hwf.nodup _) d.1 hmem hk (by rw [nextD_eq_succIn] at hk'; exact hk')
+  have hm : succIn (((rotAt L (L.head d)).filter keep).map (rank keep)) (rank keep d.1)
+      = rank keep (succIn ((rotAt L (L.head d)).filter keep) d.1) :=
+    succIn_map (rank keep) _ d.1 hmemf (fun a ha b hb h => rank_inj keep (List.mem_filter.mp ha).2 (List.mem_filter.mp hb).2 h)
+  unfold renameDart
+  simp only
+  rw [hm, hs]
+  have hkn : keep (succIn (rotAt L (L.head d)) d.1) = true := by rw [nextD_eq_succIn] at hk'; exact hk'
+  rw [thin_endsOf L keep _ hkn]
+
+theorem iterate_thin (L : Lat) (keep : Nat → Bool) (hL : L.noSelfLoop = true)
+    (hnz : ∀ v, ∀ e ∈ incident L v, outVec L v e ≠ (0, 0)) (d : Dart) (hd : d.1 < L.E)
+    (hk : ∀ k, keep ((nextD L (rotAt L))^[k] d).1 = true) :
+    ∀ k, (nextD (thin L keep) (rotAt (thin L keep)))^[k] (renameDart keep d) = renameDart keep ((nextD L (rotAt L))^[k] d) := by
+  intro k
+  induction k with
+  | zero => rfl
+  | succ k ih =>
+    rw [iterate_succ_apply', iterate_succ_apply', ih]
+    have hv : ((nextD L (rotAt L))^[k] d).1 < L.E := _root_.iter_valid L (rotAt L) (rotAt_wf L hL) hd k
+    apply nextD_thin L keep hL hnz _ hv (hk k)
+    have := hk (k + 1)
+    rwa [iterate_succ_apply'] at this
+
+theorem thin_noSelfLoop (L : Lat) (keep : Nat → Bool) (hL : L.noSelfLoop = true) : (thin L keep).noSelfLoop = true := by
+  unfold Lat.noSelfLoop at hL ⊢
+  rw [List.all_eq_true] at hL ⊢
+  intro e he
+  exact hL e ((filterIdx_sublist keep L.edges).subset he)
+
+theorem renameDart_inj (keep : Nat → Bool) {a b : Dart} (ha : keep a.1 = true) (hb : keep b.1 = true)
+    (h : renameDart keep a = renameDart keep b) : a = b := by
+  unfold renameDart at h
+  have h1 := congrArg Prod.fst h
+  have h2 := congrArg Prod.snd h
+  simp only at h1 h2
+  exact Prod.ext (rank_inj keep ha hb h1) h2
+
+/-- **C12 (plaquettes survive edge deletion, in the output lattice)**: trace a face of `L` from a dart `d`; if none of its
+    edges is deleted, then tracing from the renamed dart in the thinned, renumbered lattice (what `cut_boundaries` — or any
+    deletion of edges — returns) gives the same face, edge for edge with the new edge numbers and the same directions. -/
+theorem face_in_thinned (L : Lat) (keep : Nat → Bool) (hL : L.noSelfLoop = true)
+    (hnz : ∀ v, ∀ e ∈ incident L v, outVec L v e ≠ (0, 0)) (d : Dart) (hd : d.1 < L.E)
+    (hk : ∀ y ∈ walkFrom L (rotAt L) d, keep y.1 = true) :
+    walkFrom (thin L keep) (rotAt (thin L keep)) (renameDart keep d) = (walkFrom L (rotAt L) d).map (renameDart keep) := by
+  have hwf := rotAt_wf L hL
+  have hwf' := rotAt_wf (thin L keep) (thin_noSelfLoop L keep hL)
+  have hk' : ∀ k, keep ((nextD L (rotAt L))^[k] d).1 = true :=
+    fun k => hk _ ((_root_.mem_walkFrom L (rotAt L) hwf hd _).mpr ⟨k, rfl⟩)
+  have hit := iterate_thin L keep hL hnz d hd hk'
+  have hd' : (renameDart keep d).1 < (thin L keep).E := by
+    rw [thin_E]; exact rank_lt keep hd (hk' 0)
+  rw [_root_.walkFrom_eq L (rotAt L) hwf hd, _root_.walkFrom_eq (thin L keep) (rotAt (thin L keep)) hwf' hd']
+  set W := _root_.walkData L (rotAt L) hwf hd
+  set W' := _root_.walkData (thin L keep) (rotAt (thin L keep)) hwf' hd'
+  have hp : W'.p = W.p := by
+    apply Nat.le_antisymm
+    · by_contra hlt
+      have hlt : W.p < W'.p := Nat.lt_of_not_le hlt
+      have := W'.inj W.p 0 hlt W'.pos (by rw [hit, W.per]; rfl)
+      exact absurd this (Nat.pos_iff_ne_zero.mp W.pos)
+    · by_contra hlt
+      have hlt : W'.p < W.p := Nat.lt_of_not_le hlt
+      have h1 : renameDart keep ((nextD L (rotAt L))^[W'.p] d) = renameDart keep d := by rw [← hit, W'.per]
+      have h2 := renameDart_inj keep (hk' W'.p) (hk' 0) h1
+      have := W.inj W'.p 0 hlt W.pos h2
+      exact absurd this (Nat.pos_iff_ne_zero.mp W'.pos)
+  rw [hp]
+  apply List.ext_getElem
+  · simp
+  · intro i h1 h2
+    simp only [List.getElem_iterate, List.getElem_map]
+    exact hit i
+
+end FaceInOutput
+
 end C12
